@@ -13,6 +13,7 @@ CONSTANTS
   Sizes = {}
   HistStores <- HistStoresQuick
   HistKinds = {}
+  HistFillFirst = TRUE
   MaxSteps = 1
 INVARIANTS TypeOK ImplAgreesOpen Isolated
 CHECK_DEADLOCK FALSE
